@@ -306,6 +306,8 @@ vf::Result check(const Case& cs) {
     }
 #ifndef C18_LIBFUZZER
     vf::note(vf::hash_str(encode(cs)), ran && !abandoned);
+    if (ran && !abandoned && cs.size() >= 3 && cs.size() <= 8 && vf::ctx().samples.size() < 6)
+        vf::sample(encode(cs));
 #else
     (void)ran;
 #endif
